@@ -89,7 +89,9 @@ Inductive instr :=
 | IHook                                  (* an awaited application hook *)
 | ISetRole (r : Z)
 | IResend (b e : Z) (declined : list Z)  (* _process_resend: recover_messages, then the replay loop *)
-| IRaise (e : err).                      (* a failing assert / DuplicatedTagError inside the handler *)
+| IRaise (e : err)                       (* a failing assert / DuplicatedTagError inside the handler; re-raise after IFinally's hook *)
+| IFinally.                              (* end of `try: await self._process_resend(msg)`; its finally clause:
+                                            if state == RESENDREQ_HANDLING: await self._state_set(ACTIVE) *)
 
 Inductive wait := WStart | WHook | WDrain (f : frame) (ticket : Z) | WDone.
 
@@ -147,17 +149,27 @@ Definition number (m : msg) (w : world) : err + (Z * world) :=
 Definition push_wire (f : frame) (w : world) : world :=
   mkW (nout w) (sout w) (rows w) (f :: rwire w) (st w) (role w) (treq w) (tick w + 1).
 
+Definition is_finally (i : instr) : bool := match i with IFinally => true | _ => false end.
+
+(* an exception with `after` = the code that would have followed.  In a task that catches per call the next
+   call goes on.  In the reader task it ends the handler - but if it is raised inside the try of the
+   ResendRequest service (an IFinally follows) while the state is RESENDREQ_HANDLING, the finally clause first
+   sets the state back to ACTIVE and awaits the on_state_change hook; the exception propagates afterwards. *)
 Definition raise_ (abort : bool) (e : err) (is_send : bool) (out : list outcome) (w : world)
-           (k : list outcome -> world -> res) : res :=
-  if abort then (mkT [] WDone (if is_send then OExc e :: out else out) (Some e) abort, w)
+           (after : list instr) (k : list outcome -> world -> res) : res :=
+  if abort then
+    let out' := if is_send then OExc e :: out else out in
+    if existsb is_finally after && (st w =? S_HANDLING)
+    then (mkT [IRaise e] WHook out' None abort, set_st S_ACTIVE w)
+    else (mkT [] WDone out' (Some e) abort, w)
   else k (OExc e :: out) w.
 
 (* TestRequest gate, numbering, write, suspension in drain; rest = the code after this call *)
 Definition send_tail (abort : bool) (m : msg) (rest : list instr) (out : list outcome) (w : world)
            (k : list outcome -> world -> res) : res :=
-  if (m_ty m =? T_TESTREQ) && negb (treq w) then raise_ abort EConn true out w k
+  if (m_ty m =? T_TESTREQ) && negb (treq w) then raise_ abort EConn true out w rest k
   else match number m w with
-       | inl e => raise_ abort e true out w k
+       | inl e => raise_ abort e true out w rest k
        | inr (n, w1) =>
            let f := mkF n (m_ty m) (m_pd m) (m_id m) (m_gf m) in
            (mkT rest (WDrain f (tick w1)) out None abort, push_wire f w1)
@@ -166,7 +178,7 @@ Definition send_tail (abort : bool) (m : msg) (rest : list instr) (out : list ou
 Definition send_head (abort : bool) (m : msg) (rest : list instr) (out : list outcome) (w : world)
            (k : list outcome -> world -> res) : res :=
   match gate m w with
-  | GErr e => raise_ abort e true out w k
+  | GErr e => raise_ abort e true out w rest k
   | GHook => (mkT (ISendRest m :: rest) WHook out None abort, set_st S_LOGON_SENT w)
   | GGo => send_tail abort m rest out w k
   end.
@@ -186,7 +198,7 @@ Fixpoint execf (abort : bool) (code tail : list instr) (k : list outcome -> worl
       | ISend m => send_head abort m after out w k'
       | ISendRest m => send_tail abort m after out (set_role R_INITIATOR w) k'
       | ITestReq =>
-          if treq w then raise_ abort EConn true out w k'
+          if treq w then raise_ abort EConn true out w after k'
           else send_head abort testreq_msg after out (set_treq true w) k'
       | IStateHook s ua =>
           if ua && (st w =? S_AWAITING) then k' out w
@@ -194,7 +206,9 @@ Fixpoint execf (abort : bool) (code tail : list instr) (k : list outcome -> worl
       | IHook => (mkT after WHook out None abort, w)
       | ISetRole r => k' out (set_role r w)
       | IResend _ _ _ => k' out w
-      | IRaise e => raise_ abort e false out w k'
+      | IRaise e => raise_ abort e false out w after k'
+      | IFinally =>
+          if st w =? S_HANDLING then (mkT after WHook out None abort, set_st S_ACTIVE w) else k' out w
       end
   end.
 
@@ -255,7 +269,7 @@ Definition resume (t : task) (w : world) : task * world :=
       if nojournal f then exec (t_abort t) (t_code t) (OOk :: t_out t) w
       else match persist f w with
            | Some w' => exec (t_abort t) (t_code t) (OOk :: t_out t) w'
-           | None => raise_ (t_abort t) EDupSeq true (t_out t) w (exec (t_abort t) (t_code t))
+           | None => raise_ (t_abort t) EDupSeq true (t_out t) w (t_code t) (exec (t_abort t) (t_code t))
            end
   end.
 
@@ -324,4 +338,4 @@ Definition reader_gap : task := reader [ISend (mkMsg T_RESENDREQ 0 None false fa
 (*   an application message in order *)
 Definition reader_app : task := reader [IHook].
 (*   a ResendRequest(BeginSeqNo = b, EndSeqNo = e); d = numbers for which should_replay says no *)
-Definition reader_resend (b e : Z) (d : list Z) : task := reader [IStateHook S_HANDLING true; IResend b e d].
+Definition reader_resend (b e : Z) (d : list Z) : task := reader [IStateHook S_HANDLING true; IResend b e d; IFinally].
